@@ -43,5 +43,22 @@ pub fn run(t: &[&str]) -> String {
             return "bad-op".into();
         }
     }
+    // a clone taken now (the original may be partially indexed) and a clone of the fully indexed view are views of
+    // their own over the same text: each answers like a fresh view
+    let fresh = SourceView::new(view.source().to_string().into());
+    let want_n = fresh.line_count();
+    let want: Vec<String> = fresh.lines().map(|l| l.to_string()).collect();
+    for stage in 0..2 {
+        if stage == 1 {
+            let _ = view.line_count();
+        }
+        let c = view.clone();
+        let last = if want_n > 0 { c.get_line(want_n as u32 - 1).map(|x| x.to_string()) } else { None };
+        let past = c.get_line(want_n as u32).map(|x| x.to_string());
+        let got: Vec<String> = c.lines().map(|l| l.to_string()).collect();
+        if c.line_count() != want_n || got != want || last != want.last().cloned() || past.is_some() {
+            return format!("err clone-differs stage{}", stage);
+        }
+    }
     format!("ok {}", show_list(&out))
 }
